@@ -258,6 +258,15 @@ def skip_fixed(decoder, writer_schema, named_schemas=None):
     decoder.read_fixed(size)
 
 
+def _checked_index(index, choices, kind):
+    """Negative indexes would silently wrap around with Python's indexing"""
+    if not 0 <= index < len(choices):
+        raise IndexError(
+            f"{kind} index {index} is out of range, schema has {len(choices)} choices"
+        )
+    return index
+
+
 def read_enum(
     decoder,
     writer_schema,
@@ -265,7 +274,8 @@ def read_enum(
     reader_schema=None,
     options={},
 ):
-    symbol = writer_schema["symbols"][decoder.read_enum()]
+    symbols = writer_schema["symbols"]
+    symbol = symbols[_checked_index(decoder.read_enum(), symbols, "enum")]
     if reader_schema and symbol not in reader_schema["symbols"]:
         default = reader_schema.get("default")
         if default:
@@ -398,7 +408,7 @@ def read_union(
     options={},
 ):
     # schema resolution
-    index = decoder.read_index()
+    index = _checked_index(decoder.read_index(), writer_schema, "union")
     idx_schema = writer_schema[index]
     idx_reader_schema = None
 
@@ -473,7 +483,7 @@ def read_union(
 
 def skip_union(decoder, writer_schema, named_schemas):
     # schema resolution
-    index = decoder.read_index()
+    index = _checked_index(decoder.read_index(), writer_schema, "union")
     skip_data(decoder, writer_schema[index], named_schemas)
 
 
